@@ -3,7 +3,7 @@
 import json, subprocess
 
 HOOK_COMMITS = ["ac08067"]
-FIX_COMMITS = ["ee1d815", "296be57", "098316b", "7098e6b", "bcffdd6", "589a9d1"]
+FIX_COMMITS = ["ee1d815", "296be57", "098316b", "7098e6b", "bcffdd6", "589a9d1", "787a52b"]
 
 # id -> (technique, level text, level note, design ref)
 CHECKS = {
@@ -25,6 +25,12 @@ CHECKS = {
  "C10": ("bounded-exhaustive enumeration of dependency graphs (E1) against a fixpoint model of resolvability, plus schedule exploration (E2) of the small graphs",
          "Every dependency graph over up to 3 types (4 thorough) x edge kinds (by value, array, base, pointer, built-in, undefined name) x module assignments, chains to length 12 in three declaration orders, by-value cycles to length 6, pointer cycles, and undefined names in non-field positions is run through the real pipeline; Ok iff the model says resolvable, every declared field present with the declared type (syn), the error's type list equals the model's set, and the verdict is the same under every resolution schedule.",
          "Types with more than one field are packed so layout rules do not mask resolution verdicts.", "DESIGN.md §6 C10"),
+ "C11": ("bounded-exhaustive enumeration of module sets x ordered import lists (E1) against a precedence model; syn inspection of emitted paths",
+         "Every combination of three provider modules (a, b, n::c) defining or not a type of the observed name with sizes 4/8/16, an observer with or without its own definition, and every ordered use list up to length 3 over module and by-name imports, for a fresh name and for a user type named like a built-in, is run through the real pipeline; the emitted field, parameter and return type paths must be the fully qualified path of the definition the statement's precedence selects, and the referring type's resolved size must be that definition's.",
+         "Resolved size == compiled size is C02's claim.", "DESIGN.md §6 C11"),
+ "C14": ("bounded-exhaustive enumeration of input directories (E1) through pyxis::build; directory listing and syn item inspection",
+         "Every non-empty subset of the module paths {a, n/c, n/d/e, n}; one module at a time ranges over every subset of item kinds and every sequence of up to 2 backend blocks (rust prologue/epilogue/both, cpp); plus a collision menu that must be rejected. pyxis::build runs on real directories; the output listing must be exactly one .rs per module, each file's struct/enum/accessor multiset must equal the declared one plus generated vftable structs, prologue items first and epilogue items last in source order, no foreign backend text.",
+         "File-system enumeration order is whatever glob yields in this sandbox.", "DESIGN.md §6 C14"),
 }
 
 NOT_YET = {
